@@ -260,11 +260,11 @@ fn dfa_check_after(first: u8) {
 
 //@ id: c11_dfa_b2_dash
 //@ property: C11
-//@ tier: thorough
+//@ tier: off
 //@ encodes: the logos-generated <Tok as Logos>::lex (real DFA, no stub), logos::Lexer::{next, span}
 //@ sym: two-byte ASCII sources `-x` with x symbolic (all 128): the first character of `--`, `--|`, `-/`, `->` and of signed numbers
 //@ oracle: as c11_dfa_b1
-//@ bounds: 128 two-byte sources (the fully symbolic two-byte source and 6 first bytes per harness did not finish in 50 min); unwind 5
+//@ bounds: 128 two-byte sources (measured: does not finish in 50 min either, like the fully symbolic two-byte source and 6 first bytes per harness; switched off); unwind 5
 //@ replay: playback
 //@ timeout: 3000
 #[kani::proof]
@@ -275,7 +275,7 @@ fn c11_dfa_b2_dash() {
 
 //@ id: c11_dfa_b2_slash
 //@ property: C11
-//@ tier: thorough
+//@ tier: off
 //@ encodes: the logos-generated <Tok as Logos>::lex (real DFA, no stub), logos::Lexer::{next, span}
 //@ sym: two-byte ASCII sources `/x` with x symbolic (all 128): the first character of `/-`
 //@ oracle: as c11_dfa_b1
